@@ -71,6 +71,7 @@ def gen_op(rng, n_query, allow_nested=True, force_stage=None):
                      'bootstrap_factor': rng.choice([1.0, 0.6]), 'min_markers': rng.choice([1, 3]),
                      'rng_seed': rng.randrange(2 ** 31), 'cloud_safe': rng.random() < 0.3,
                      'tmp_dir_none': rng.random() < 0.12, 'obsm': rng.random() < 0.15,
+                     'clobber_without_key': rng.random() < 0.2,
                      'encoding': rng.choice(['csr', 'csc', 'dense']),
                      'flatten': rng.random() < 0.15}
     elif stage == 'otf':
@@ -228,6 +229,9 @@ def call_op(sb, ctx, op, out_dir, scratch, sched, clean=False):
             rng_seed=cfg['rng_seed'], cloud_safe=cfg['cloud_safe'], flatten=cfg['flatten'])
         if cfg.get('obsm'):
             dcfg['obsm_key'] = 'cdm_' + op['tag']
+            dcfg['obsm_clobber'] = True
+        elif cfg.get('clobber_without_key'):
+            # clobbering allowed but no key given: nothing is to be stored in the query file, so it must stay untouched
             dcfg['obsm_clobber'] = True
         bad = (op.get('fault') or {}) if (op.get('fault') or {}).get('kind') == 'bad_input' and not clean else {}
         what = bad.get('what')
